@@ -11,6 +11,8 @@ from ..oracle import exact
 
 LEVEL = "exploration"
 TERMS = ["2", "-3", "0.5", "x", "y", "2x", "-3x", "x^2", "2x^2", "3y", "-x", "y^2", "4x^3", "x^0", "0"]
+# terms for the like-relation: products of several variables included (the relation compares variable lists)
+REL_TERMS = TERMS + ["x * y", "y * x", "x * x", "2x * y", "x * y * z", "x^2 * y", "x * 2", "3 * 4", "x / y", "-(x * y)", "x * y^2"]
 COEFS = [None, 1, 2, -3, 0.5, 0, -1, 12, -2.5]
 VARS = [None, "x", "y"]
 EXPS = [None, 2, 0, -1, 0.5, 1, 3]
@@ -188,7 +190,7 @@ def check_like_relation(ta, tb):
         if bool(terms_are_like(a, b)) != bool(terms_are_like(b, a)):
             out.append(("terms_are_like-not-symmetric", f"{ta!r} vs {tb!r}"))
         # in a sum context
-        s = parse(f"{ta} + {tb}")
+        s = parse(f"({ta}) + ({tb})" if not ta.startswith("-") else f"{ta} + ({tb})")
         l, r = s.left, s.right
         if bool(terms_are_like(l, r)) != bool(terms_are_like(r, l)):
             out.append(("terms_are_like-not-symmetric", f"{ta!r} vs {tb!r} as addends"))
@@ -230,7 +232,7 @@ def _work(task):
                 acc.violation(f"{k}|c={c!r},v={v!r},e={e!r}", {"kind": "triple", "c": c, "v": v, "e": e}, d)
         for k, d in check_negated_forms():
             acc.violation(k + "|negated", {"kind": "negated"}, d)
-        for ta, tb in itertools.product(TERMS, TERMS):
+        for ta, tb in itertools.product(REL_TERMS, REL_TERMS):
             acc.count("pairs")
             for k, d in check_like_relation(ta, tb):
                 acc.violation(f"{k}|{ta}|{tb}", {"kind": "pair", "a": ta, "b": tb}, d)
